@@ -7,16 +7,23 @@ usage: run_harmless.py <repo-checkout>
 """
 import json, os, subprocess, sys
 from pathlib import Path
-VERIF = Path(__file__).resolve().parent.parent
+VERIF0 = Path(__file__).resolve().parent.parent
 repo = Path(sys.argv[1]).resolve()
+# isolated copy of /verif (own lake project and Gen files), see run_seeded.py
+ISO = Path(os.environ.get("SEEDED_ENV", "/tmp/seeded_env"))
+ISO.mkdir(parents=True, exist_ok=True)
+subprocess.run(["rsync", "-a", "--delete", "--exclude", ".git", "--exclude", "replays", "--exclude", "evidence", str(VERIF0) + "/", str(ISO / "verif") + "/"], check=True)
+VERIF = ISO / "verif"
 subprocess.run(["git", "-C", str(repo), "checkout", "HEAD", "--", "."], check=True)
 a = subprocess.run(["git", "-C", str(repo), "apply", "--3way", str(VERIF / "harmless" / "refactors.patch.diff")], capture_output=True, text=True)
 if a.returncode != 0:
     print("PATCH-DOES-NOT-APPLY", a.stderr[-400:]); sys.exit(2)
-env = dict(os.environ, AGP_TPF_REPO=str(repo), VERIF_MODEL_ONLY="1")
+env = dict(os.environ, AGP_TPF_REPO=str(repo))
+if os.environ.get("HARMLESS_MODEL_ONLY", "1") == "1":
+    env["VERIF_MODEL_ONLY"] = "1"
 bad = 0
-for i in range(1, 21):
-    prop = f"C{i:02d}"
+props = sys.argv[2:] or [f"C{i:02d}" for i in range(1, 21)]
+for prop in props:
     p = subprocess.run([sys.executable, str(VERIF / "harness" / "check.py"), prop, "--tier", "quick"], cwd=str(VERIF), env=env, capture_output=True, text=True)
     line = [l for l in p.stdout.splitlines() if l.startswith(prop + " tier=") or l.startswith("VIOLATION")]
     print(prop, "exit", p.returncode, " | ".join(line)[:260], flush=True)
